@@ -190,14 +190,15 @@ Definition refusal_error : sres unit :=
   else if send_data_refusal =? h_Timeout then Err (HConnErr HTimeout)
   else Panic 32.
 
-(* fn send_data *)
-Definition send_data (b : wbuf) (s : send_stream) : sres unit * send_stream :=
+(* fn send_data; `guard` = the `if self.writing.is_some() { return Err(..) }` block is present *)
+Definition send_data_with (guard : bool) (b : wbuf) (s : send_stream) : sres unit * send_stream :=
   match s_writing s with
   | Some _ =>
-      if send_data_guard then (refusal_error, s)
+      if guard then (refusal_error, s)
       else (Ok tt, {| s_q := s_q s; s_writing := Some b |})
   | None => (Ok tt, {| s_q := s_q s; s_writing := Some b |})
   end.
+Definition send_data := send_data_with send_data_guard.
 
 (* the `while data.has_remaining()` loop of poll_ready; one oracle answer per poll_write call.
    An exhausted oracle is a Quinn that stays blocked. *)
@@ -380,13 +381,14 @@ Definition stop_sending (code : N) (r : recv_stream) : res unit unit * recv_stre
            else (Ok tt, r)
        end.
 
-(* fn recv_id *)
-Definition recv_id (r : recv_stream) : res unit N :=
-  if recv_id_cached then Ok (r_id r)
+(* fn recv_id; `cached` = it returns `self.id` (otherwise it unwraps `self.stream`) *)
+Definition recv_id_with (cached : bool) (r : recv_stream) : res unit N :=
+  if cached then Ok (r_id r)
   else match r_stream r with
        | None => Panic 54
        | Some q => match sid_try_from (qr_id q) with Some id => Ok id | None => Panic 55 end
        end.
+Definition recv_id := recv_id_with recv_id_cached.
 
 Inductive recv_op :=
 | OPollData
